@@ -19,6 +19,7 @@
 """Blueprint for version 1 of API
 """
 import binascii
+import hmac
 import logging
 import time
 import re
@@ -36,10 +37,15 @@ blueprint = Blueprint('v1', __name__)
 auth = HTTPBasicAuth()
 
 
-@auth.get_password
-def get_pw(username):
-    if username == cfg.CONF.rest.username:
-        return cfg.CONF.rest.password
+@auth.verify_password
+def verify_pw(username, password):
+    """
+    The configured user name with the configured password. The passwords are compared as UTF-8 octets:
+    hmac.compare_digest refuses text with non-ASCII characters, which turned such a request into a 500.
+    """
+    if username and username == cfg.CONF.rest.username and hmac.compare_digest(
+            password.encode('utf-8'), cfg.CONF.rest.password.encode('utf-8')):
+        return username
     return None
 
 
